@@ -5,6 +5,7 @@ Imports model files only (no Mathlib) so it links as a `lean_exe`.
 import S4V.Model.Wire
 import S4V.Model.Path
 import S4V.Model.Lines
+import S4V.Model.LinesCached
 import S4V.Model.Coord
 import S4V.Model.Time
 import S4V.Model.Syslines
@@ -12,12 +13,6 @@ import S4V.Model.Gate
 import S4V.Model.SortDrain
 import S4V.Drv.Journal
 import S4V.Drv.Tmp
-import S4V.Drv.Walk
-import S4V.Drv.Print
-import S4V.Drv.Cli
-import S4V.Drv.Boxptrs
-import S4V.Drv.Stream
-import S4V.Drv.Time
 
 open S4V.Model S4V.Model.Wire
 
@@ -68,7 +63,23 @@ def stepLine : List String → String
     | _, _, _ => "bad-op"
   | "hist" :: bs :: h :: ops =>
     match bs.toNat?, unhex h with
-    | some bs, some d => String.intercalate ";" (ops.map (histOp bs d))
+    | some bs, some d =>
+      let plain := ops.map (histOp bs d)
+      -- the same history through the model WITH caches (LRU, line store, foend_to_fobeg, A1a/A1b
+      -- shortcuts, drop_line); both models must give the same answers
+      let cops : List LinesCached.Op := ops.filterMap fun op =>
+        let kind := (op.take 1).toString
+        match (op.drop 1).toString.toNat? with
+        | some fo => if kind = "f" then some (.find fo) else if kind = "d" then some (.drop fo) else none
+        | none => none
+      let cres := (LinesCached.runOps d LinesCached.empty cops).1
+      let cstr : List String := cres.map fun r => match r with
+        | some .done => "done"
+        | some (.found n b e) => s!"found {n} {b} {e}"
+        | none => "drop"
+      let pstr := (ops.zip plain).filterMap fun (op, r) => if (op.take 1).toString = "i" then none else some r
+      if cstr = pstr then String.intercalate ";" plain
+      else "CACHED-MODEL-DIFFERS " ++ String.intercalate ";" cstr
     | _, _ => "bad-op"
   | _ => "bad-op"
 
@@ -206,12 +217,6 @@ def step (line : String) : String :=
   | "sort" :: rest => stepSort rest
   | "jrn" :: rest => S4V.Drv.stepJournal rest
   | "tmp" :: rest => S4V.Drv.stepTmp rest
-  | "walk" :: rest => S4V.Drv.Walk.stepWalk rest
-  | "prt" :: rest => S4V.Drv.Print.stepPrint rest
-  | "cli" :: rest => stepCli rest
-  | "boxp" :: rest => S4V.Drv.stepBoxp rest
-  | "asm" :: rest => S4V.Drv.Stream.stepAsm rest
-  | "time" :: rest => S4V.Drv.Time.stepTime rest
   | _ => "bad-op"
 
 partial def loop (h : IO.FS.Stream) (out : IO.FS.Stream) : IO Unit := do
